@@ -19,7 +19,7 @@ REF_SCOPES = {
 }
 
 
-def run(ctx, w):
+def _run(ctx, w):
     S = shared.screen(w)
     R = shared.roles(w)
     E = w.E
@@ -109,6 +109,9 @@ def run(ctx, w):
     from rules import prims
     prims.row_primitives(ctx, w, S, "X9")
     ctx.floor("X9", 100, "row primitive evaluations")
+    prims.buffer_edit_primitives(ctx, w, S, R, "X10", spec=True)
+    decaln_extent(ctx, w, S, R)
+    ctx.floor("X10", 1000, "buffer edit primitive evaluations")
 
 
 def const_false(body, pt):
@@ -300,3 +303,51 @@ def nocontent(ctx, w, S, R, erase_fn):
         ctx.check(not bad, "X7", fn, "%s reads cell content (%s): erase/insert/delete must not depend on what the cells contained" % (fn, sorted(M.path_str(p) for p in bad)[:3]), loc=w.fn_loc(fn),
                   sample={"fn": fn, "reads": sorted(M.path_str(p) for p in Rd)[:8]})
     ctx.floor("X7", 5, "erase/shift primitives")
+
+
+def run(ctx, w):
+    _run(ctx, w)
+    # the commands of this property must first of all be DECODED as specified (selector values, parameter slots, finals)
+    from rules import c03
+    shared.embed(ctx, w, c03.dispatch_rules)
+
+
+def decaln_extent(ctx, w, S, R):
+    """X11: the alignment pattern covers the WHOLE screen: the cell write ranges over 0..cols x 0..rows (not over the
+    scroll region, not up to a margin)."""
+    E = w.E
+    ctx.rule("X11", "DECALN writes every cell: the written position ranges over columns 0..cols and rows 0..rows of the terminal")
+
+    def ranges_in(t, acc):
+        if isinstance(t, tuple):
+            if t and t[0] == "adt" and str(t[1]).startswith("core::ops::range::Range") and len(t) > 4:
+                acc.append((t[1], t[4]))
+            if t and t[0] == "call" and str(t[1]).endswith("RangeInclusive::<Idx>::new"):
+                acc.append(("incl", t[2]))
+            for x in t:
+                ranges_in(x, acc)
+        return acc
+    cols_t, rows_t = ("load", ("arg1", R["cols"])), ("load", ("arg1", R["rows"]))
+
+    def full(rs, dim):
+        for kind, ops in rs:
+            if kind == "core::ops::range::Range" and tuple(ops) == (("const", 0), dim):
+                return True
+            if kind == "incl" and len(ops) == 2 and ops[0] == ("const", 0) and ops[1] == ("binop", "Sub", dim, ("const", 1)):
+                return True
+        return False
+    n = 0
+    for h in w.handler("Decaln"):
+        T = w.terms(h)
+        for cs in E.call_sites(h):
+            if not (cs.local and S._impl_of(cs.callee) == S.buffer_ty and any(S.is_row_content(p) for p in cs.W)):
+                continue
+            pos = WD.strip_names(T.operand(cs.term["args"][1], cs.point))
+            if pos[0] != "tuple" or len(pos[1]) != 2:
+                ctx.violation("X11", h + ":position", "%s writes at %s; cannot recognise a (column, row) pair ranging over the screen" % (h, w.tstr(h, pos)[:80]), loc=w.site_loc(cs))
+                continue
+            n += 1
+            cr, rr = ranges_in(pos[1][0], []), ranges_in(pos[1][1], [])
+            ctx.check(full(cr, cols_t), "X11", h + ":columns", "%s writes columns %s; DECALN fills every column 0..cols" % (h, w.tstr(h, pos[1][0])[:100]), loc=w.site_loc(cs), sample={"columns": w.tstr(h, pos[1][0])[:100]})
+            ctx.check(full(rr, rows_t), "X11", h + ":rows", "%s writes rows %s; DECALN fills every row 0..rows (margins do not limit it)" % (h, w.tstr(h, pos[1][1])[:100]), loc=w.site_loc(cs), sample={"rows": w.tstr(h, pos[1][1])[:100]})
+    ctx.floor("X11", 2, "DECALN extent obligations")
